@@ -25,12 +25,26 @@ Print Assumptions C09_product_entry_points_agree.
 Theorem C09_product_operand_storage_order : forall a b c d w x y z, 0 < a*a + b*b + c*c + d*d -> 0 < w*w + x*x + y*y + z*z ->
   C09_product_QS_R a b c d w x y z = Val (qmul [a;b;c;d] [w;x;y;z]) /\
   C09_mul_QS_R a b c d w x y z = Val (qmul [a;b;c;d] [w;x;y;z]) /\
-  C09_matmul_QH_R a b c d w x y z = Val (qmul [a;b;c;d] [w;x;y;z]).
+  C09_matmul_QH_R a b c d w x y z = Val (qmul [a;b;c;d] [w;x;y;z]) /\
+  C09_matmul_QS_R a b c d w x y z = Val (qmul [a;b;c;d] [w;x;y;z]) /\
+  C09_product_SS_R a b c d w x y z = Val (qmul [a;b;c;d] [w;x;y;z]) /\
+  C09_mul_SS_R a b c d w x y z = Val (qmul [a;b;c;d] [w;x;y;z]) /\
+  C09_matmul_SS_R a b c d w x y z = Val (qmul [a;b;c;d] [w;x;y;z]).
 Proof.
   intros a b c d w x y z Hp Hq. split; [exact (product_QS_spec a b c d w x y z Hp Hq)|].
-  split; [exact (mul_QS_spec a b c d w x y z Hp Hq)|exact (matmul_QH_spec a b c d w x y z Hp Hq)].
+  split; [exact (mul_QS_spec a b c d w x y z Hp Hq)|]. split; [exact (matmul_QH_spec a b c d w x y z Hp Hq)|].
+  split; [exact (matmul_QS_spec a b c d w x y z Hp Hq)|]. split; [exact (product_SS_spec a b c d w x y z Hp Hq)|].
+  split; [exact (mul_SS_spec a b c d w x y z Hp Hq)|exact (matmul_SS_spec a b c d w x y z Hp Hq)].
 Qed.
 Print Assumptions C09_product_operand_storage_order.
+
+(* after normalize() on a non-normalised quaternion every view of the object (ndarray buffer, .A, w/x/y/z,
+   to_array) is the same versor: the object has ONE state *)
+Theorem C09_normalize_one_state : forall w x y z, 0 < w*w + x*x + y*y + z*z ->
+  let n := sqrt (w*w + x*x + y*y + z*z) in
+  C09_normalize_views_R w x y z = Val [w/n; x/n; y/n; z/n;  w/n; x/n; y/n; z/n;  w/n; x/n; y/n; z/n;  w/n; x/n; y/n; z/n].
+Proof. exact normalize_views_spec. Qed.
+Print Assumptions C09_normalize_one_state.
 
 (* hence associativity, norm multiplicativity and (pq)* = q* p* of the implemented product *)
 Theorem C09_algebra_laws : forall p q r : list R,
